@@ -21,6 +21,7 @@ Patterns: static text, optionally ending in one tail segment `{name:.*}`; other 
 Result: ordered list of services
     ("scope", prefix, [("resource", pattern, [(METHOD, handler)]) ...])
     ("resource", pattern, [(METHOD, handler)])
+    ("guarded", pattern, [(METHOD, handler)])       (attribute-macro handler: the method is a resource guard)
 """
 import re
 
@@ -83,7 +84,7 @@ class RouteReader:
             txt = [t.v for t in a]
             if len(a) >= 6 and txt[0] == "actix_web" and txt[1] == "::" and txt[2] in METHODS and txt[3] == "(" \
                     and a[4].k == "str" and txt[5] == ")" and len(a) == 6:
-                return ("resource", self.check_pattern(a[4].v, where), [(METHODS[txt[2]], name)])
+                return ("guarded", self.check_pattern(a[4].v, where), [(METHODS[txt[2]], name)])
         raise Refuse("%s: %s is registered as a service but has no #[actix_web::<method>(\"..\")] attribute" % (where, name))
 
     def service(self, e, where):
@@ -107,7 +108,7 @@ class RouteReader:
                     raise Refuse("%s: scope(%r): unsupported call .%s(..)" % (where, prefix, name))
                 k = self.service(args[0], where)
                 if k[0] != "resource":
-                    raise Refuse("%s: nested scopes are not supported (scope %r)" % (where, prefix))
+                    raise Refuse("%s: only web::resource(..) services are supported inside a scope (scope %r)" % (where, prefix))
                 kids.append(k)
             return ("scope", prefix, kids)
         if cur[0] == "call" and cur[1][0] == "path" and cur[1][1] == ["web", "resource"] and len(cur[2]) == 1 and cur[2][0][0] == "str":
@@ -198,7 +199,7 @@ def flatten(services):
     """-> list of (full_pattern, METHOD, handler) in registration order"""
     out = []
     for s in services:
-        if s[0] == "resource":
+        if s[0] in ("resource", "guarded"):
             for m, h in s[2]:
                 out.append((s[1], m, h))
         else:
@@ -227,6 +228,8 @@ def services_coq(services):
     for s in services:
         if s[0] == "resource":
             items.append("  SRes (" + res(s, "").strip() + ")")
+        elif s[0] == "guarded":
+            items.append("  SGuarded (" + res(s, "").strip() + ")")
         else:
             kids = ";\n".join(res(r, "      ") for r in s[2])
             items.append("  SScope %s [\n%s\n    ]" % (coq_str(s[1]), kids))
